@@ -45,6 +45,7 @@ type Link struct {
 	wdl           time.Time
 	stalled       bool
 	room          int // bytes a stalled stream peer still takes (what is left of its socket buffer)
+	wlock         chan struct{}
 	wnotify       chan struct{}
 	name          string
 	// OnWrite, when set, is called synchronously (outside the link's lock) with
@@ -57,12 +58,12 @@ type Link struct {
 // NewDatagram makes a link that preserves message boundaries (UDP-like: the
 // sender never blocks, a read returns one whole datagram).
 func NewDatagram(name string) *Link {
-	return &Link{datagram: true, notify: make(chan struct{}, 1), wnotify: make(chan struct{}, 1), name: name}
+	return &Link{datagram: true, notify: make(chan struct{}, 1), wnotify: make(chan struct{}, 1), wlock: make(chan struct{}, 1), name: name}
 }
 
 // NewStream makes a byte-stream link with an unbounded buffer (TCP-like).
 func NewStream(name string) *Link {
-	return &Link{notify: make(chan struct{}, 1), wnotify: make(chan struct{}, 1), name: name}
+	return &Link{notify: make(chan struct{}, 1), wnotify: make(chan struct{}, 1), wlock: make(chan struct{}, 1), name: name}
 }
 
 func (l *Link) wake() {
@@ -198,6 +199,12 @@ func (c *conn) Read(p []byte) (int, error) {
 
 func (c *conn) Write(b []byte) (int, error) {
 	l := c.l
+	// one Write call at a time, as on a socket (the descriptor's write lock): a second writer waits
+	// until the first call has returned - also when it returns early with a timeout
+	// (a channel, not a sync.Mutex: a goroutine waiting for a mutex would keep a synctest bubble's
+	// clock from advancing)
+	l.wlock <- struct{}{}
+	defer func() { <-l.wlock }()
 	cp := append([]byte(nil), b...)
 	written := 0
 	for {
